@@ -31,6 +31,13 @@ def run(chk, replay=None):
         guards["deviation_CloseWaitsForHandlers_yields_counterexample"] = gl.violation
         if not gl.violation:
             raise vlib.Infra("vacuity guard: CloseWaitsForHandlers not distinguished")
+        tl = vlib.run_tlc("NBNSTcpServer", vlib.cfg("C18_tcp_live.cfg"), timeout=300)
+        chk.add_tlc("tcp_server_liveness", tl)
+        gt = vlib.run_tlc("NBNSTcpServer", vlib.cfg("C18_tcp_live.cfg").replace("StopWakesWriters = TRUE", "StopWakesWriters = FALSE"),
+                          allow_violation=True, timeout=300)
+        guards["deviation_StopWakesWriters_FALSE_yields_counterexample"] = gt.violation
+        if not gt.violation:
+            raise vlib.Infra("vacuity guard: StopWakesWriters=FALSE not distinguished")
         chk.part("vacuity_guards", **guards)
 
         # ---- model -> code: forced schedules on the real UDP servers
@@ -50,6 +57,14 @@ def run(chk, replay=None):
                                                   "shard": sh, "shards": shards}, "sched_%s_%d" % (srv, sh), False))
             jobs.append(("c18.sched", opedges, {"server": srv, "max": 1, "seed": chk.seed, "clients": CL16, "ops": OPS16}, "opcodes_" + srv, False))
         jobs.append(("c18.tcpops", opedges, {"ops": OPS16}, "opcodes_TCPServer", False))
+        # ---- NBNS TCP server: connections idle / mid-message / handler blocked in a write, Stop at every point
+        tcpedges = os.path.join(d, "tcp.ndjson")
+        r = vlib.run_tlc("NBNSTcpServer", vlib.cfg("C18_tcp.cfg"), emit_to=tcpedges, timeout=300)
+        chk.add_tlc("tcp_server_graph", r)
+        tsh = 4 if tier == "quick" else 8
+        for sh in range(tsh):
+            jobs.append(("c18.tcpsched", tcpedges, {"seed": chk.seed, "max": 30, "shard": sh, "shards": tsh, "runs": 10 if tier == "quick" else 0},
+                         "tcp_sched_%d" % sh, False))
         # ---- NameChallenger (client side of NBNS): every reply script of up to 3 attempts
         chedges = os.path.join(d, "challenge.ndjson")
         r = vlib.run_tlc("NameChallenge", vlib.cfg("C18_challenge.cfg", MAXT=0 if tier == "quick" else 1), emit_to=chedges, timeout=300)
